@@ -130,7 +130,10 @@ def run(chk):
     rnd = random.Random(chk.seed + 2)
     qt = lang.quantity_trees(chk, "c02-qty", k=2)
     run_strings(chk, qt, "c02-qtrees", "exhaustive small trees over quantities", chunk=1500)
-    strings = FIXED + generate(rnd, p["pairs"])
+    # every unit word in a dimensional context (C05's family): cast to a target of each kind of quantity as one factor of a
+    # commensurable expression, and alone -- accepted exactly when the dimensions agree
+    context = ugen.gen_context(random.Random(chk.seed + 22), ugen.Vocab(), p.get("context", 0.25))
+    strings = FIXED + generate(rnd, p["pairs"]) + context
     res, recs = run_strings(chk, strings, "c02-pairs", "unit expression pairs")
     ok = sum(1 for r in recs if len(r["res"]) == 1 and r["res"][0]["k"] == "val")
     chk.cov["accepted_by_tool"] = ok
@@ -143,6 +146,7 @@ def run(chk):
         chk.sample({"query": r["text"], "result": lang.show(r)})
     chk.cov["exhaustive"] = False
     chk.cov["rule"] = ("one evaluation = one query `x a (+|-|to) y b` (or a plain number on one side) over the whole unit vocabulary with prefixes, powers "
+                       "-2..2 (large powers in a family of their own), every unit word in a dimensional context (a share of C05's word x target x position family), "
                        "-2..2 and up to 4 (+2 cancelling) units per side; the specification decides Ok/Err and the adopted unit from the characters; "
                        "non-trivial = both sides carry units and the sets of units differ, distinct by query text; out of domain = a side the "
                        "specification cannot read unambiguously (ambiguous word, the same unit twice) or an offset scale")
